@@ -107,6 +107,26 @@ def same(a, b):
         return False
 
 
+def _geom(i, D):
+    """caller-owned arrays of instance i: geometries that drive the constructor through each of
+    its bound-adjusting branches (x0 on a hard bound, plausible = hard, plausible within 0.1% of
+    hard, x0 outside the plausible box, 1-D array spellings, shared array objects)"""
+    if i == 1:      # interior box
+        return (np.full((1, D), 0.5), np.full((1, D), -4.0), np.full((1, D), 4.0),
+                np.full((1, D), -2.0), np.full((1, D), 2.0))
+    if i == 2:      # plausible bounds equal to the hard bounds, x0 on the lower hard bound
+        return (np.full((1, D), -4.0), np.full((1, D), -4.0), np.full((1, D), 4.0),
+                np.full((1, D), -4.0), np.full((1, D), 4.0))
+    if i == 3:      # flat arrays, positive box (log rule), plausible bound within 0.1% of hard, x0 on ub
+        return (np.full(D, 1000.0), np.full(D, 1.0), np.full(D, 1000.0),
+                np.full(D, 1.0005), np.full(D, 999.9))
+    # x0 outside the plausible box (box is widened), hard bounds passed as the same object as plausible
+    lb, ub = np.full((1, D), -5.0), np.full((1, D), 5.0)
+    x0 = np.full((1, D), 3.0)
+    x0[0, 0] = -5.0
+    return (x0, lb, ub, np.full((1, D), -1.0), np.full((1, D), 1.0))
+
+
 def _replay_schedule(hist):
     """returns list of (clause, site, where, detail)"""
     import logging
@@ -128,9 +148,7 @@ def _replay_schedule(hist):
                 extra["uncertainty_handling"] = True
             uopts = dict(user)
             uopts.update(extra)
-            x0 = np.full((1, D), 0.5)
-            lb, ub = np.full((1, D), -4.0), np.full((1, D), 4.0)
-            plb, pub = np.full((1, D), -2.0), np.full((1, D), 2.0)
+            x0, lb, ub, plb, pub = _geom(i, D)
             before = {"opts": {k: snap(v) for k, v in uopts.items()}, "keys": sorted(uopts),
                       "arrs": [a.tobytes() for a in (x0, lb, ub, plb, pub)]}
             if INST_NOISY[i]:
